@@ -111,7 +111,10 @@ def Value.withSm (v : Value) (line col : Nat) : Value :=
   | .tuple b _ _ items => .tuple b line col items
   | v => v
 
-def zeroTag (t : String) : Bool := t == "n0000000000000000" || t == "n8000000000000000"
+/-- tags are `n<16 hex digits of the double>` (the printer driver appends `:<text>`) -/
+def zeroTag (t : String) : Bool :=
+  let h := String.ofList (t.toList.take 17)
+  h == "n0000000000000000" || h == "n8000000000000000"
 
 /-- `janet_equals` on parser-produced values, as used for struct / table keys.  Buffers, arrays and tables are
     compared by identity in C; two distinct literals are never the same object.  Fuelled (depth). -/
